@@ -332,3 +332,7 @@ def run(ck):
     from contracts import C04
 
     C04.tau_energy_obligations(ck)
+    # the kinematics need E_tau > m_tau for every energy the tables can hand out: the joint code-and-tables fact, decided on the shipped tables
+    from contracts import C18
+
+    C18.min_tau_energy(ck)
